@@ -38,6 +38,38 @@ CLAIMS = {
          '(thorough) states, at most 2 entities, time-out 1..4 polls; _terminate '
          'never set.',
     design='4/C15'),
+ 'C14': dict(
+    text='Bounded symbolic execution of (P1) the real PilotManager._state_sub_cb / '
+         '_update_pilot / _call_pilot_callbacks / Pilot._update and the tmgr '
+         "scheduler's _update_pilot_states as an inductive step (arbitrary current "
+         'state x two successive notifications with arbitrary states for a known or '
+         'unknown pilot), and (P2) the real Agent_0 termination logic '
+         '(_check_lifetime, stop, _control_cb, control_cb, _ctrl_cancel_pilots, '
+         'finalize) with start time, run time and event times as symbolic integers '
+         'and a symbolic pair of termination events; the state written to '
+         'killme.signal and published is compared with the cause.',
+    note='Trusted: CrossHair/z3 path exhaustion; fake clock, in-memory killme.signal, '
+         'recorders for session/rm/publish/advance; bootstrap_0.sh (forwards the '
+         'signal file) not covered; one pilot per notification message; at most 2 '
+         'notifications / 2 termination events.',
+    design='4/C14'),
+ 'C19': dict(
+    text='Bounded symbolic execution of the real TaskDescription / PilotDescription '
+         'verify(), _verify(), as_dict() (through the ru.TypedDict machinery) and of '
+         'convert_slots_to_new / convert_slots_to_old / Slot.__init__: task mode as a '
+         'symbolic index over all 13 mode values x presence of the mode-specific '
+         'attributes, deprecated attributes in every present/absent combination, '
+         'symbolic integer values, pilot sizes as symbolic integers, slot core/GPU '
+         'index sets as bit masks in four entry forms; asserts required-attribute '
+         'enforcement, alias mapping, idempotence of verify() and dict round trip, '
+         'index preservation of the slot conversions.',
+    note='Trusted: CrossHair/z3 path exhaustion. Outside the claim: PythonTask / '
+         'serialize_obj (dill/msgpack C extensions: CrossHair concretises there, '
+         'nothing would be symbolic); gpu_processes only with a concrete value (float '
+         'of a symbolic int is inconclusive); new->old->new composition (the old form '
+         'produced by convert_slots_to_old is not an input form of '
+         'convert_slots_to_new).',
+    design='4/C19'),
 }
 
 NOT_YET = 'check not built yet in this session (see DESIGN.md section 4 for the plan)'
